@@ -976,7 +976,13 @@ fn check_fcase(rt: &tokio::runtime::Runtime, model: &mut Model, case: &FCase, re
                 report.bump("oracle.judged");
                 if *engine_out != o.out && mism && report.histogram.get("oracle.known_class_violation").copied().unwrap_or(0) >= 3 {
                     report.bump("oracle.known_class_violation");
+                } else if *engine_out != o.out && !mism && report.histogram.get("oracle.violation_recorded").copied().unwrap_or(0) >= 10 {
+                    // a breaking change produces thousands of these: ten shrunk witnesses are enough
+                    report.bump("oracle.violation_not_recorded");
                 } else if *engine_out != o.out {
+                    if !mism {
+                        report.bump("oracle.violation_recorded");
+                    }
                     let class = if mism { "type-mismatch" } else { "" };
                     if mism {
                         report.bump("oracle.known_class_violation");
@@ -1012,7 +1018,12 @@ fn short(s: &str) -> String {
 
 /// shrink a failing oracle case: fewer rows, then a single leaf of the clause
 fn shrink_f(rt: &tokio::runtime::Runtime, case: &FCase) -> FCase {
+    let budget = std::cell::Cell::new(80u32); // cap on re-executions per shrink
     let fails = |c: &FCase| {
+        if budget.get() == 0 {
+            return false;
+        }
+        budget.set(budget.get() - 1);
         let o = run_filter_impl(rt, c);
         c.in_fragment() && matches!(&o.engine, Ok(e) if *e != o.out)
     };
@@ -1390,106 +1401,260 @@ fn unqualify(e: &Ex) -> Ex {
 }
 
 // ----------------------------------------------------------- end to end ----
-/// `QueryNode::query_stream_filtered` with a topic subscription of a real channel and no
-/// historical data: the stream must carry, per flushed batch in flush order, what the
-/// engine's evaluation of the clause keeps among the rows after "now" (timestamps are
-/// generated either around the year 2096 or in 1970).
-fn run_e2e(rt: &tokio::runtime::Runtime, rng: &mut Rng, report: &mut Report, n: usize) {
+// Leg C.  The subscription point of a streaming query is the return of
+// `QueryNode::query_stream(_filtered)` (the receiver is resubscribed inside the call).
+// Oracle: every row flushed after the call returned, at or after the merge point and
+// satisfying the WHERE clause, arrives exactly once, in flush order — no matter whether
+// the spawned forwarding task has already reached its live loop.  Timestamps of live rows
+// are generated either around the year 2096 (after the executor's merge point = now) or in
+// 1970 (before it); historical rows carry "now minus a few seconds".
+const FUTURE: i64 = 4_000_000_000_000_000_000;
+
+/// when the live batches are flushed relative to the forwarding task
+#[derive(Clone, Copy, Debug, PartialEq)]
+enum Timing {
+    /// right after the call returned, before the result stream is polled at all
+    /// (current-thread runtime: the spawned task has not run yet)
+    Immediately,
+    /// after the task had every chance to finish the historical hand-over
+    AfterHandover,
+    /// half immediately, half after yielding
+    Split,
+    /// after reading a few historical batches: with more than 100 result batches the
+    /// task is blocked on the full result channel in the middle of the hand-over
+    MidHandover,
+}
+
+fn e2e_batch(rng: &mut Rng, report: &mut Report) -> Batch {
+    let mut b = gen_batch(rng, FUTURE + 1000, report);
+    // fixed schema across batches, Int64 non-null timestamps
+    b.cols.sort_by(|a, c| a.0.cmp(&c.0));
+    b.cols.retain(|(n, _)| n != "Host" && n != "host" && n != "value_u64");
+    for (n, c) in b.cols.iter_mut() {
+        if n == "timestamp" {
+            let v: Vec<Option<i64>> = match c {
+                Col::I(v) | Col::T(v) => v
+                    .iter()
+                    .enumerate()
+                    .map(|(i, x)| {
+                        Some(match x {
+                            Some(t) if *t > FUTURE - 1_000_000 => *t,
+                            Some(_) => 1_000 + i as i64,
+                            None => FUTURE + i as i64,
+                        })
+                    })
+                    .collect(),
+                _ => vec![],
+            };
+            *c = Col::I(v);
+        }
+    }
+    b
+}
+
+fn first_ts(b: &RecordBatch) -> Option<i64> {
+    let c = b.column_by_name("timestamp")?;
+    if let Some(a) = c.as_any().downcast_ref::<Int64Array>() {
+        return (a.len() > 0).then(|| a.value(0));
+    }
+    if let Some(a) = c.as_any().downcast_ref::<TimestampNanosecondArray>() {
+        return (a.len() > 0).then(|| a.value(0));
+    }
+    None
+}
+
+struct E2eRun {
+    sql: String,
+    legacy: bool,
+    timing: Timing,
+    hist_chunks: usize,
+    hist_batches: usize,
+    got: Vec<String>,
+    expect: Vec<String>,
+}
+
+/// one end-to-end stream.  `hist_chunks` = 0: channels driven directly, no stored data;
+/// otherwise a real Ingester (one flush per write) stores `hist_chunks` tiny chunks first and
+/// performs the live flushes too.
+async fn e2e_once(
+    wh: &Option<Ex>,
+    live: &[Batch],
+    legacy: bool,
+    timing: Timing,
+    hist_chunks: usize,
+) -> Result<E2eRun, String> {
+    use cardinalsin::ingester::{Ingester, IngesterConfig, WalConfig};
     use cardinalsin::metadata::LocalMetadataClient;
     use cardinalsin::query::{QueryConfig, QueryNode};
+    use cardinalsin::schema::MetricSchema;
     use cardinalsin::StorageConfig;
     use object_store::memory::InMemory;
-    for round in 0..n {
-        let legacy = round % 2 == 1;
-        let future = 4_000_000_000_000_000_000i64; // year 2096: after the executor's merge timestamp (now)
-        let mut batches = Vec::new();
-        let nb = rng.range_usize(1, 4);
-        for _ in 0..nb {
-            let mut b = gen_batch(rng, future + 1000, report);
-            // keep the schema fixed across batches and timestamps non-null
-            b.cols.sort_by(|a, c| a.0.cmp(&c.0));
-            b.cols.retain(|(n, _)| n != "Host" && n != "host" && n != "value_u64");
-            for (n, c) in b.cols.iter_mut() {
-                if n == "timestamp" {
-                    let v: Vec<Option<i64>> = match c {
-                        // rows either far after "now" (kept) or long before it (must be masked by the merge timestamp)
-                        Col::I(v) | Col::T(v) => v.iter().enumerate().map(|(i, x)| Some(match x {
-                            Some(t) if *t > future - 1_000_000 => *t,
-                            Some(_) => 1_000 + i as i64,
-                            None => future + i as i64,
-                        })).collect(),
-                        _ => vec![],
-                    };
-                    *c = Col::I(v);
-                }
-            }
-            batches.push(b);
-        }
-        // clause over the fixed schema, inside the fragment and outside the known class
-        let mut wh = None;
-        for _ in 0..20 {
-            let cand = unqualify(&gen_bool(rng, 2, &batches[0], report));
-            let probe = FCase { merge: 0, wh: Some(cand.clone()), batch: batches[0].clone() };
-            if probe.in_fragment() && !probe.type_mismatch() && !cand.sql().to_lowercase().contains("timestamp") {
-                wh = Some(cand);
-                break;
-            }
-        }
-        let Some(wh) = wh else { continue };
-        let sql = format!("SELECT * FROM metrics WHERE {}", wh.sql());
-        let res: Result<(Vec<String>, Vec<String>), String> = rt.block_on(async {
-            let store = Arc::new(InMemory::new());
-            let metadata = Arc::new(LocalMetadataClient::new());
-            let channel = TopicBroadcastChannel::new(64);
-            let legacy_channel = BroadcastChannel::new(64);
-            let rx = channel.subscribe(TopicFilter::All).await;
-            let mut node = QueryNode::new(QueryConfig::default(), store, metadata, StorageConfig::default())
-                .await
-                .map_err(|e| format!("QueryNode::new: {}", e))?
-                .with_topic_filter(rx);
-            node.connect_broadcast(legacy_channel.subscribe());
-            // alternate between the topic-filtered and the legacy broadcast path of the executor
-            let mut stream = if legacy {
-                node.query_stream(&sql).await.map_err(|e| format!("query_stream: {}", e))?
-            } else {
-                node.query_stream_filtered(&sql).await.map_err(|e| format!("query_stream_filtered: {}", e))?
+
+    let sql = match wh {
+        Some(w) => format!("SELECT * FROM metrics WHERE {}", w.sql()),
+        None => "SELECT * FROM metrics".to_string(),
+    };
+    let store = Arc::new(InMemory::new());
+    let metadata = Arc::new(LocalMetadataClient::new());
+    let channel = TopicBroadcastChannel::new(1024);
+    let legacy_channel = BroadcastChannel::new(1024);
+    let ingester = if hist_chunks > 0 {
+        let cfg = IngesterConfig {
+            flush_row_count: 1,
+            wal: WalConfig { enabled: false, ..WalConfig::default() },
+            ..IngesterConfig::default()
+        };
+        Some(Ingester::new(cfg, store.clone(), metadata.clone(), StorageConfig::default(), MetricSchema::default_metrics()))
+    } else {
+        None
+    };
+    if let Some(ing) = &ingester {
+        // historical rows: "now minus a few seconds", same schema as the live batches
+        let now = std::time::SystemTime::now().duration_since(std::time::UNIX_EPOCH).unwrap().as_nanos() as i64;
+        for i in 0..hist_chunks {
+            let h = Batch {
+                rows: 1,
+                cols: vec![
+                    ("metric_name".into(), Col::S(vec![Some("cpu".into())])),
+                    ("timestamp".into(), Col::I(vec![Some(now - 5_000_000_000 - i as i64)])),
+                    ("value_f64".into(), Col::F(vec![Some((i as f64).to_bits())])),
+                    ("value_i64".into(), Col::I(vec![Some(i as i64)])),
+                ],
             };
-            // let the spawned task reach its receive loop, then flush the batches
-            tokio::task::yield_now().await;
-            let mut expect = Vec::new();
-            for b in &batches {
-                if b.rows == 0 {
-                    continue;
+            ing.write(h.to_arrow()).await.map_err(|e| format!("historical write: {}", e))?;
+        }
+    }
+    let mut node = QueryNode::new(QueryConfig::default(), store, metadata, StorageConfig::default())
+        .await
+        .map_err(|e| format!("QueryNode::new: {}", e))?;
+    node = match &ingester {
+        Some(ing) => {
+            node.connect_broadcast(ing.subscribe());
+            node.with_topic_filter(ing.subscribe_filtered(TopicFilter::All).await)
+        }
+        None => {
+            node.connect_broadcast(legacy_channel.subscribe());
+            node.with_topic_filter(channel.subscribe(TopicFilter::All).await)
+        }
+    };
+    // ---- the subscription point ----
+    let mut stream = if legacy {
+        node.query_stream(&sql).await.map_err(|e| format!("query_stream: {}", e))?
+    } else {
+        node.query_stream_filtered(&sql).await.map_err(|e| format!("query_stream_filtered: {}", e))?
+    };
+
+    let mut got = Vec::new();
+    let mut hist_batches = 0usize;
+    let take = |b: Result<RecordBatch, cardinalsin::Error>, got: &mut Vec<String>, hist: &mut usize| match b {
+        Ok(b) => {
+            if first_ts(&b).map(|t| t > FUTURE / 2).unwrap_or(true) {
+                got.push(canon_arrow(&b));
+            } else {
+                *hist += 1;
+            }
+        }
+        Err(e) => got.push(format!("ERR({})", e)),
+    };
+    match timing {
+        Timing::Immediately | Timing::Split => {}
+        Timing::AfterHandover => {
+            for _ in 0..50 {
+                tokio::task::yield_now().await;
+            }
+        }
+        Timing::MidHandover => {
+            for _ in 0..3 {
+                match tokio::time::timeout(std::time::Duration::from_millis(200), stream.recv()).await {
+                    Ok(Some(b)) => take(b, &mut got, &mut hist_batches),
+                    _ => break,
                 }
+            }
+        }
+    }
+    let mut expect = Vec::new();
+    for (k, b) in live.iter().enumerate() {
+        if b.rows == 0 {
+            continue;
+        }
+        if timing == Timing::Split && k == live.len() / 2 {
+            for _ in 0..50 {
+                tokio::task::yield_now().await;
+            }
+        }
+        match &ingester {
+            Some(ing) => ing.write(b.to_arrow()).await.map_err(|e| format!("live write: {}", e))?,
+            None => {
                 if legacy {
                     let _ = legacy_channel.send(b.to_arrow());
                 } else {
                     let _ = channel.send(TopicBatch { batch: b.to_arrow(), metadata: BatchMetadata { shard_id: "s".into(), tenant_id: 1, metrics: vec![] } });
                 }
-                // any instant between the real "now" and `future` separates the two groups of rows
-                let o = run_filter_impl_engine_only(&FCase { merge: future - 2_000_000, wh: Some(wh.clone()), batch: b.clone() }).await;
-                match o {
-                    Ok(s) => {
-                        if s != "NONE" {
-                            expect.push(s)
-                        }
-                    }
-                    Err(e) => return Err(format!("engine: {}", e)),
+            }
+        }
+        // any instant between the real "now" and FUTURE separates the two groups of rows
+        let o = run_filter_impl_engine_only(&FCase { merge: FUTURE - 2_000_000, wh: wh.clone(), batch: b.clone() }).await;
+        match o {
+            Ok(s) => {
+                if s != "NONE" {
+                    expect.push(s)
                 }
             }
-            let mut got = Vec::new();
-            for _ in 0..50 {
-                tokio::task::yield_now().await;
-            }
-            loop {
-                match tokio::time::timeout(std::time::Duration::from_millis(if got.len() < expect.len() { 500 } else { 20 }), stream.recv()).await {
-                    Ok(Some(Ok(b))) => got.push(canon_arrow(&b)),
-                    Ok(Some(Err(e))) => got.push(format!("ERR({})", e)),
-                    Ok(None) | Err(_) => break,
+            Err(e) => return Err(format!("engine: {}", e)),
+        }
+    }
+    // drain: historical hand-over first, then the live tail
+    loop {
+        let wait = if got.len() < expect.len() || hist_batches < hist_chunks.min(1) { 1500 } else { 40 };
+        match tokio::time::timeout(std::time::Duration::from_millis(wait), stream.recv()).await {
+            Ok(Some(b)) => take(b, &mut got, &mut hist_batches),
+            Ok(None) | Err(_) => break,
+        }
+    }
+    Ok(E2eRun { sql, legacy, timing, hist_chunks, hist_batches, got, expect })
+}
+
+fn run_e2e(rt: &tokio::runtime::Runtime, rng: &mut Rng, report: &mut Report, n_small: usize, n_large: usize) {
+    let mut findings = 0usize;
+    // (hist_chunks, legacy, timing, with_where)
+    let mut plan: Vec<(usize, bool, Timing, bool)> = Vec::new();
+    for round in 0..n_small {
+        let timing = match round / 2 % 3 {
+            0 => Timing::Immediately,
+            1 => Timing::Split,
+            _ => Timing::AfterHandover,
+        };
+        plan.push((if round % 6 == 5 { 3 } else { 0 }, round % 2 == 1, timing, true));
+    }
+    for round in 0..n_large {
+        // > 100 result batches: no WHERE clause (one result batch per chunk file), so that the
+        // forwarding task is back-pressured by the result channel while the ingester flushes
+        let timing = if round / 2 % 2 == 0 { Timing::MidHandover } else { Timing::Immediately };
+        plan.push((130, round % 2 == 1, timing, round >= 2 && round % 4 >= 2));
+    }
+    for (hist_chunks, legacy, timing, with_where) in plan {
+        if findings >= 10 {
+            report.bump("e2e.skipped_after_10_findings");
+            continue;
+        }
+        let nb = rng.range_usize(1, 4);
+        let batches: Vec<Batch> = (0..nb).map(|_| e2e_batch(rng, report)).collect();
+        // clause over the fixed schema, inside the fragment and outside the known class
+        let mut wh = None;
+        if with_where {
+            for _ in 0..20 {
+                let cand = unqualify(&gen_bool(rng, 2, &batches[0], report));
+                let probe = FCase { merge: 0, wh: Some(cand.clone()), batch: batches[0].clone() };
+                if probe.in_fragment() && !probe.type_mismatch() && !cand.sql().to_lowercase().contains("timestamp") {
+                    wh = Some(cand);
+                    break;
                 }
             }
-            Ok((got, expect))
-        });
+            if wh.is_none() {
+                continue;
+            }
+        }
+        let res = rt.block_on(e2e_once(&wh, &batches, legacy, timing, hist_chunks));
         report.impl_runs += 1;
         match res {
             Err(e) => {
@@ -1498,14 +1663,26 @@ fn run_e2e(rt: &tokio::runtime::Runtime, rng: &mut Rng, report: &mut Report, n: 
                     report.notes.push(format!("e2e setup: {}", e.chars().take(200).collect::<String>()));
                 }
             }
-            Ok((got, expect)) => {
-                report.bump(if legacy { "e2e.run_legacy_broadcast" } else { "e2e.run_topic_filtered" });
-                report.case(Some(&format!("e2e|{}|{:?}", sql, expect)));
-                if got != expect {
+            Ok(run) => {
+                report.bump(if run.legacy { "e2e.run_legacy_broadcast" } else { "e2e.run_topic_filtered" });
+                report.bump(&format!("e2e.flush_{:?}", run.timing));
+                if run.hist_chunks > 0 {
+                    report.bump("e2e.with_stored_history_and_real_ingester_flushes");
+                }
+                if run.hist_batches > 100 {
+                    report.bump("e2e.historical_result_over_100_batches");
+                }
+                report.case(Some(&format!("e2e|{}|{}|{:?}|{}|{:?}", run.sql, run.legacy, run.timing, run.hist_chunks, run.expect)));
+                if run.got != run.expect {
+                    findings += 1;
                     report.oracle_violation(
                         "",
-                        &format!("end to end: stream delivered {:?}, expected per flushed batch {:?}", got.iter().map(|s| short(s)).collect::<Vec<_>>(), expect.iter().map(|s| short(s)).collect::<Vec<_>>()),
-                        json!({"case": {"kind": "e2e", "sql": sql, "batches": batches.iter().map(|b| b.to_json()).collect::<Vec<_>>()}}),
+                        &format!(
+                            "end to end ({} receiver, {} stored chunks / {} historical result batches, live batches flushed {:?} after the streaming call returned): stream delivered {:?}, but the rows flushed since the subscription point that lie after the merge point and satisfy the WHERE clause are {:?}",
+                            if run.legacy { "legacy broadcast" } else { "topic-filtered" }, run.hist_chunks, run.hist_batches, run.timing,
+                            run.got.iter().map(|s| short(s)).collect::<Vec<_>>(), run.expect.iter().map(|s| short(s)).collect::<Vec<_>>()),
+                        json!({"case": {"kind": "e2e", "sql": run.sql, "legacy": run.legacy, "timing": format!("{:?}", run.timing), "hist_chunks": run.hist_chunks,
+                                        "where": wh.as_ref().map(|w| w.to_json()), "batches": batches.iter().map(|b| b.to_json()).collect::<Vec<_>>()}}),
                     );
                 }
             }
@@ -1518,7 +1695,10 @@ async fn run_filter_impl_engine_only(case: &FCase) -> Result<String, String> {
     let ctx = SessionContext::new_with_config(SessionConfig::new().with_target_partitions(1));
     let table = MemTable::try_new(arrow.schema(), vec![vec![arrow.clone()]]).map_err(|e| e.to_string())?;
     ctx.register_table("t", Arc::new(table)).map_err(|e| e.to_string())?;
-    let q = format!("SELECT * FROM t WHERE \"timestamp\" >= {} AND ({})", case.merge, case.wh.as_ref().unwrap().sql());
+    let q = match &case.wh {
+        Some(w) => format!("SELECT * FROM t WHERE \"timestamp\" >= {} AND ({})", case.merge, w.sql()),
+        None => format!("SELECT * FROM t WHERE \"timestamp\" >= {}", case.merge),
+    };
     let df = ctx.sql(&q).await.map_err(|e| e.to_string())?;
     let bs: Vec<RecordBatch> = df.collect().await.map_err(|e| e.to_string())?.into_iter().filter(|b| b.num_rows() > 0).collect();
     if bs.is_empty() {
@@ -1551,8 +1731,27 @@ fn main() {
                 failed = !bad.is_empty() || (!model.is_null() && m != i);
             }
             "e2e" => {
-                println!("end-to-end cases are regenerated from the seed; re-run ./check C18 --seed <seed>");
-                failed = true;
+                let wh = if c["where"].is_null() { None } else { Some(Ex::from_json(&c["where"])) };
+                let batches: Vec<Batch> = c["batches"].as_array().map(|a| a.iter().map(Batch::from_json).collect()).unwrap_or_default();
+                let timing = match c["timing"].as_str().unwrap_or("Immediately") {
+                    "AfterHandover" => Timing::AfterHandover,
+                    "Split" => Timing::Split,
+                    "MidHandover" => Timing::MidHandover,
+                    _ => Timing::Immediately,
+                };
+                let legacy = c["legacy"].as_bool().unwrap_or(false);
+                let hist = c["hist_chunks"].as_u64().unwrap_or(0) as usize;
+                match rt.block_on(e2e_once(&wh, &batches, legacy, timing, hist)) {
+                    Ok(run) => {
+                        println!("sql   : {}\nreceiver: {}  flush timing: {:?}  stored chunks: {}  historical result batches: {}\ngot   : {:?}\nexpect: {:?}",
+                            run.sql, if run.legacy { "legacy broadcast" } else { "topic-filtered" }, run.timing, run.hist_chunks, run.hist_batches, run.got, run.expect);
+                        failed = run.got != run.expect;
+                    }
+                    Err(e) => {
+                        println!("end-to-end setup failed: {}", e);
+                        failed = true;
+                    }
+                }
             }
             _ => {
                 let case = FCase::from_json(&c);
@@ -1573,7 +1772,7 @@ fn main() {
         std::process::exit(if failed { 1 } else { 0 });
     }
 
-    let (n_f, n_t, n_e) = if args.thorough() { (60_000, 20_000, 150) } else { (3_000, 1_200, 12) };
+    let (n_f, n_t, n_e, n_l) = if args.thorough() { (60_000, 20_000, 150, 12) } else { (3_000, 1_200, 18, 4) };
     let mut rng = Rng::new(args.seed);
 
     for c in corpus_f() {
@@ -1593,7 +1792,7 @@ fn main() {
         check_tcase(&rt, &mut model, &c, &mut report, "random");
     }
     let mut r = rng.fork();
-    run_e2e(&rt, &mut r, &mut report, n_e);
+    run_e2e(&rt, &mut r, &mut report, n_e, n_l);
 
     report.notes.push(format!("model calls: {}", model.calls));
     report.write(&args.out);
